@@ -66,6 +66,15 @@ def gen_cases(ctx):
                    K_unit=["km/s", "m/s"][int(rng.random() < 0.4)], P0_unit=["d", "yr"][int(rng.random() < 0.4)])
         # sigma_K0 is handed over in K_unit and P0 in P0_unit; every number below (sK0, maxK, sigma) is then in K_unit
         cfg["f"] = 1000.0 if cfg["K_unit"] == "m/s" else 1.0
+        # user-supplied (non-constant) priors on the jitter and the angles: (kind, mu, sigma) per parameter, or absent
+        cfg["extra"] = {}
+        if rng.random() < 0.5:
+            if rng.random() < 0.7:
+                cfg["extra"]["s"] = ["lognormal", q(rng.uniform(-2, 1), 64), q(rng.uniform(0.3, 1.5), 64)]
+            if rng.random() < 0.5:
+                cfg["extra"]["omega"] = ["normal", q(rng.uniform(1, 5), 64), q(rng.uniform(0.3, 2), 64)]
+            if rng.random() < 0.5:
+                cfg["extra"]["M0"] = ["normal", q(rng.uniform(1, 5), 64), q(rng.uniform(0.3, 2), 64)]
         cfg["Pe"] = [(q(a * (b / a) ** rng.random(), 1 << 16), q(rng.uniform(0, 0.95), 1024)) for _ in range(4)] + [(a, 0.0), (q(min(b, a * 1.01), 1 << 16), 0.9375)]
         cases.append(cfg)
     return cases
@@ -84,16 +93,23 @@ def build_prior(cfg):
     sv = [cfg["sigma_v"][i] * u.km / u.s / u.day**i for i in range(cfg["poly_trend"])]
     with warnings.catch_warnings():
         warnings.simplefilter("ignore")
-        if cfg["maxK"] == 500.0:
+        ex = cfg.get("extra") or {}
+        if cfg["maxK"] == 500.0 and not ex:
             return JokerPrior.default(P_min=cfg["a"] * u.day, P_max=cfg["b"] * u.day, sigma_K0=(cfg["sK0"] * cfg["f"]) * u.Unit(cfg["K_unit"]),
                                       P0=(cfg["P0"] * u.day).to(u.Unit(cfg["P0_unit"])),
                                       sigma_v=sv if cfg["poly_trend"] > 1 else sv[0], poly_trend=cfg["poly_trend"])
         with pm.Model():
             P = xu.with_unit(UniformLog("P", cfg["a"], cfg["b"]), u.day)
             e = xu.with_unit(Kipping13Global("e"), u.one)
-            om = xu.with_unit(pm.Uniform("omega", 0, 2 * np.pi), u.rad)
-            M0 = xu.with_unit(pm.Uniform("M0", 0, 2 * np.pi), u.rad)
-            s = xu.with_unit(pm.Deterministic("s", pt.constant(0.0)), u.km / u.s)
+            def angle(name):
+                if name in ex:
+                    return xu.with_unit(pm.TruncatedNormal(name, mu=np.float64(ex[name][1]), sigma=np.float64(ex[name][2]), lower=0.0, upper=2 * np.pi), u.rad)
+                return xu.with_unit(pm.Uniform(name, 0, 2 * np.pi), u.rad)
+            om, M0 = angle("omega"), angle("M0")
+            if "s" in ex:
+                s = xu.with_unit(pm.Lognormal("s", mu=np.float64(ex["s"][1]), sigma=np.float64(ex["s"][2])), u.km / u.s)
+            else:
+                s = xu.with_unit(pm.Deterministic("s", pt.constant(0.0)), u.km / u.s)
             K = xu.with_unit(FixedCompanionMass("K", P=P, e=e, sigma_K0=(cfg["sK0"] * cfg["f"]) * u.Unit(cfg["K_unit"]), P0=(cfg["P0"] * u.day).to(u.Unit(cfg["P0_unit"])),
                                                 max_K=cfg["maxK"] * u.km / u.s), u.Unit(cfg["K_unit"]))
             pars = dict(P=P, e=e, omega=om, M0=M0, s=s, K=K)
@@ -127,6 +143,7 @@ def observe(cfg):
         for lin in (False, True):
             s = prior.sample(size=cfg["n_rows"], generate_linear=lin, return_logprobs=True, rng=np.random.default_rng(cfg["seed"]))
             rows = dict(P=np.asarray(s["P"].value, float), e=np.asarray(s["e"].value, float), ln_prior=np.asarray(s["ln_prior"], float))
+            rows["x"] = {k: np.asarray(s[k].value, float) for k in sorted(cfg.get("extra") or {})}
             if lin:
                 rows["K"] = np.asarray(s["K"].value, float)
                 rows["v"] = [np.asarray(s[f"v{i}"].value, float) for i in range(cfg["poly_trend"])]
@@ -181,6 +198,9 @@ def predicate(cfg, o):
 def joint_logdens(cfg, rows, lin):
     a, b = cfg["a"], cfg["b"]
     d = -np.log(rows["P"]) + (0.867 - 1) * np.log(rows["e"]) + (3.03 - 1) * np.log(1 - rows["e"])
+    for k, (kind, mu, sg) in sorted((cfg.get("extra") or {}).items()):
+        x = rows["x"][k]
+        d = d + (-0.5 * ((np.log(x) - mu) / sg) ** 2 - np.log(x) if kind == "lognormal" else -0.5 * ((x - mu) / sg) ** 2)
     if lin:
         sg = np.clip(cfg["sK0"] * cfg["f"] * (rows["P"] / cfg["P0"]) ** (-1 / 3) / np.sqrt(1 - rows["e"] ** 2), 0, cfg["maxK"] * cfg["f"])
         d = d - 0.5 * (rows["K"] / sg) ** 2 - np.log(sg)
@@ -221,12 +241,14 @@ def run_cases(ctx, cases):
                 stats["sigma_points"] += 1
                 stats["clip_active"] += sg == cfg["maxK"] * cfg["f"]
         pc = (f"(mk_pcfg {coq_Q(a)} {coq_Q(b)} kipping_global {coq_Q(cfg['sK0'] * cfg['f'])} {coq_Q(cfg['P0'])} {coq_Q(cfg['maxK'] * cfg['f'])} "
-              f"{coq_list(['(0, ' + coq_Q(s) + ')' for s in cfg['sigma_v'][:cfg['poly_trend']]])})")
+              f"{coq_list(['(0, ' + coq_Q(s) + ')' for s in cfg['sigma_v'][:cfg['poly_trend']]])} "
+              + coq_list([f"({'XLogNormal' if kind == 'lognormal' else 'XNormal'} {coq_Q(mu)} {coq_Q(sg)})" for _, (kind, mu, sg) in sorted((cfg.get('extra') or {}).items())]) + ")")
         for lin, rows in o["rows"].items():
             def prow(i):
                 K = coq_Q(rows["K"][i]) if lin else "0"
                 v = coq_list([coq_Q(rows["v"][j][i]) for j in range(cfg["poly_trend"])]) if lin else "[]"
-                return f"(mk_prow {coq_Q(rows['P'][i])} {coq_Q(rows['e'][i])} {K} {v})"
+                xs = coq_list([coq_Q(rows["x"][k][i]) for k in sorted(rows["x"])])
+                return f"(mk_prow {coq_Q(rows['P'][i])} {coq_Q(rows['e'][i])} {K} {v} {xs})"
             if not np.isfinite(rows["ln_prior"]).all():
                 continue
             for i in range(1, len(rows["P"])):
@@ -234,6 +256,7 @@ def run_cases(ctx, cases):
                               f"{coq_Q(5 * SINGLE * (1 + abs(rows['ln_prior'][i] - rows['ln_prior'][0])))})")
                 info["rows"].append((cfg, lin, i))
                 stats["row_pairs"] += 1
+                stats["row_pairs_user_prior"] = stats.get("row_pairs_user_prior", 0) + bool(rows["x"])
         nt += 1
     hd = HEADER + """Definition c_logp (t : Q * Q * Q * XQ * Q) : bool := let '(a, b, x, o, tol) := t in ul_logp_obs_ok a b x o tol.
 Definition c_draw (t : Q * Q * Q * Q * Q) : bool := let '(a, b, u, o, tol) := t in ul_draw_obs_ok a b u o tol.
@@ -287,7 +310,7 @@ def run(ctx):
     return ctx.finish(
         rule="period supports [a, b] with a over 5 decades and b/a over 6; per configuration 8 evaluation points of logp (both edges, inside, "
         "outside on both sides), 6 chosen uniform variates incl. 0 and 1-2^-30, 6 (P, e) points for the K prior (clip active and inactive, "
-        "e up to 0.9375), sigma_K0 / P0 / max_K / sigma_v / poly_trend varied, 6-row prior.sample with generate_linear off and on (5 row pairs "
+        "e up to 0.9375), sigma_K0 / P0 / max_K / sigma_v / poly_trend varied, half of the configurations with user-supplied non-constant priors on s (Lognormal) / omega / M0 (TruncatedNormal), 6-row prior.sample with generate_linear off and on (5 row pairs "
         "each), 4000 draws for support and KS distance; non-trivial = a configuration whose observations were all compared",
         assumptions=["numpy / pymc draw from the built-in uniform, Beta and Normal distributions they are asked for; the Beta normaliser and the "
                      "constant terms of uniform angles are not checked (row differences only)",
@@ -304,7 +327,7 @@ def replay(ctx, path):
         return run(ctx)
     ctx.make_overlay(need_kernel=True)
     cfg["Pe"] = [tuple(x) for x in cfg["Pe"]]
-    cfg.setdefault("f", 1.0); cfg.setdefault("K_unit", "km/s"); cfg.setdefault("P0_unit", "d")
+    cfg.setdefault("f", 1.0); cfg.setdefault("K_unit", "km/s"); cfg.setdefault("P0_unit", "d"); cfg.setdefault("extra", {})
     if ctx.build_models(MODELS):
         run_cases(ctx, [cfg])
     else:
